@@ -76,27 +76,43 @@ def log2Fuel : Nat → Nat → Nat
 
 def natLog2 (n : Nat) : Nat := log2Fuel n n
 
+/-! ### `rnd`: round-to-nearest-even of a rational to binary64, in named steps
+
+For `x = a / d > 0` put `A = a * 2^1074` (so that `x = (A / d) / 2^1074` and every binary64 value is an
+integer multiple of `2^-1074`).  `pickF` chooses the exponent `f ≥ 0` of the last mantissa bit
+(53-bit mantissa; `f = 0` in the subnormal range), `rhe` rounds the mantissa `A / (d * 2^f)`
+half-to-even; the result is `m * 2^f / 2^1074`, or ±INF from `2^1024` on. -/
+
+/-- `p / q` rounded to the nearest integer, ties to even -/
+def rhe (p q : Nat) : Nat :=
+  if 2 * (p % q) > q ∨ (2 * (p % q) = q ∧ (p / q) % 2 = 1) then p / q + 1 else p / q
+
+/-- `A / d` lies in (2^(lA-ld-1), 2^(lA-ld+1)): the exponent is `lA - ld - 52` or one less, at least 0 -/
+def pickF (A d : Nat) : Nat :=
+  let t : Int := (natLog2 A : Int) - (natLog2 d : Int) - 52
+  if t ≤ 0 then 0
+  else if A / (d * 2 ^ t.toNat) < 2 ^ 52 then t.toNat - 1 else t.toNat
+
+/-- the binary64 value `± m * 2^f / 2^1074` (±INF from 2^1024 on, a signed zero for `m = 0`) -/
+def packD (neg : Bool) (m f : Nat) : D :=
+  if m = 0 then (if neg then .nzero else .fin 0 0)
+  else if natLog2 m + f ≥ 2098 then (if neg then .ninf else .pinf)
+  else
+    let mi : Int := if neg then -(m : Int) else (m : Int)
+    if f ≥ 1074 then .fin (mi * 2 ^ (f - 1074)) 0 else .fin mi (1074 - f)
+
 /-- nearest binary64 value of `n / d` -/
 def rnd (n : Int) (d : Nat) : D :=
   if n = 0 ∨ d = 0 then .fin 0 0 else
-  let a := n.natAbs
-  let neg := decide (n < 0)
-  let scale (e : Int) : Nat × Nat :=
-    if e ≥ 0 then (a, d * 2 ^ e.toNat) else (a * 2 ^ (-e).toNat, d)
-  -- a / d lies in (2^(la-ld-1), 2^(la-ld+1))
-  let e0 : Int := (natLog2 a : Int) - (natLog2 d : Int) - 52
-  let s0 := scale e0
-  let e1 : Int := if s0.1 / s0.2 < 2 ^ 52 then e0 - 1 else if s0.1 / s0.2 ≥ 2 ^ 53 then e0 + 1 else e0
-  let e : Int := if e1 < -1074 then -1074 else e1
-  let s := scale e
-  let mant := s.1 / s.2
-  let rem := s.1 % s.2
-  let mant' := if 2 * rem > s.2 ∨ (2 * rem = s.2 ∧ mant % 2 = 1) then mant + 1 else mant
-  if mant' = 0 then (if neg then .nzero else .fin 0 0)
-  else if e + (natLog2 mant' : Int) + 1 > 1024 then (if neg then .ninf else .pinf)
-  else
-    let m : Int := if neg then -(mant' : Int) else (mant' : Int)
-    if e ≥ 0 then .fin (m * 2 ^ e.toNat) 0 else .fin m (-e).toNat
+  let A := n.natAbs * 2 ^ 1074
+  let f := pickF A d
+  packD (decide (n < 0)) (rhe A (d * 2 ^ f)) f
+
+/-- `d` is a binary64 value: NaN, ±INF, −0, or a dyadic `m / 2^k` that `rnd` maps to itself.
+(The type `D` has room for dyadics with more than 53 significant bits; no xs:double has such a value.) -/
+def D.isRep : D → Bool
+  | .fin m k => XV.eqv (rnd m (2 ^ k)).val (.q m (2 ^ k))
+  | _ => true
 
 /-- the double nearest to an exact value -/
 def XV.toD : XV → D
@@ -147,11 +163,25 @@ def D.divNat (a : D) (n : Nat) : D :=
   | .fin m k => if m = 0 then a else rnd m (2 ^ k * n)
   | a => a
 
-/-- `n / d` rounded to 28 significant digits (ties to even), as `(m, k)` = `m / 10^k`;
-`|n / d| < 10^28` is assumed.  `fuel` bounds the search for the scale. -/
+/-- `n / d` rounded to 28 significant digits (ties to even), as `(m, k)` = `m / 10^k`: the quotient of
+the `decimal` module in its default context.  A quotient of 10^28 or more keeps its 28 leading
+digits (`k = 0`, trailing zeros).  `fuel` bounds the search for the scale. -/
 def roundSig28 (n : Int) (d : Nat) : Int × Nat :=
   if n = 0 ∨ d = 0 then (0, 0) else
   let a := n.natAbs
+  let rec findJ (fuel j : Nat) : Nat :=
+    match fuel with
+    | 0 => j
+    | fuel + 1 => if a / (d * 10 ^ j) ≥ 10 ^ 28 then findJ fuel (j + 1) else j
+  let j := findJ 6000 0
+  if j > 0 then
+    -- more than 28 integer digits: round at 10^j
+    let den := d * 10 ^ j
+    let mant := a / den
+    let rem := a % den
+    let mant' := if 2 * rem > den ∨ (2 * rem = den ∧ mant % 2 = 1) then mant + 1 else mant
+    (if n < 0 then -((mant' * 10 ^ j : Nat) : Int) else ((mant' * 10 ^ j : Nat) : Int), 0)
+  else
   let rec findK (fuel k : Nat) : Nat :=
     match fuel with
     | 0 => k
